@@ -18,7 +18,7 @@ var levels = map[string]string{}
 
 func register(id, level string, f checkFn) { checks[id] = f; levels[id] = level }
 
-const specDir = evid.Root + "/spec"
+var specDir = evid.Root + "/spec"
 
 func main() {
 	color.NoColor = true
